@@ -195,6 +195,8 @@ def check(spec) -> Outcome:
             n = b - a
             pos = sorted({0, n - 1, n - 4096, n - 512, n - 8, max(0, spec["payload_len"] - 1)} | {p % n for p in spec["ct_positions"]})
             tampers += [(region, p) for p in pos if 0 <= p < n]
+        elif region == "taglen":
+            tampers += [(region, 0)]
         else:
             tampers += [(region, p) for p in range(b - a)]
     if aad:
@@ -202,7 +204,8 @@ def check(spec) -> Outcome:
     if spec["payload_len"] > 1 << 20:
         tampers = [t for t in tampers if t[0] in ("ct", "tag")][:12]  # large envelopes: keep the enumeration affordable
     for region, p in tampers:
-        t_data, _p, t_aad, _r = be.build(spec, tamper=(region, p, x))
+        xx = x if region != "taglen" else spec["ct_positions"][0] % 15 + 16  # 16 ^ xx: a tag length of 0..15 or 17..31
+        t_data, _p, t_aad, _r = be.build(spec, tamper=(region, p, xx))
         got, err = decrypt(t_data, key, t_aad)
         if err is None:
             kind = region.split(":")[-1] if region.startswith("attr") else region
@@ -225,6 +228,9 @@ def check_cli(spec, out, data, payload, ks_text):
         with open(kp, "w", newline="") as f:
             f.write(ks_text)
         before = {n: os.stat(os.path.join(d, n)).st_mtime_ns for n in os.listdir(d)}
+        if spec["payload_key"] % 2:
+            with open(op, "wb") as f:  # an older, longer output file is in the way: it must be replaced, not patched
+                f.write(b"STALE" * (len(payload) // 5 + 300))
         sys.argv = ["envelope-decrypt", ep, "-ks", kp, "-o", op]
         rc, err = lib(tool.main)
         if err:
